@@ -1170,7 +1170,25 @@ func (w *World) Do(line string) {
 				<-g
 			}
 		})
-	case "releasereg":
+	case "hold":
+		// goroutines of the library stop at the named yield point until "release" (the yield point
+		// must be one where no mutex of the library is held)
+		w.mu.Lock()
+		w.regGate = make(chan struct{})
+		w.mu.Unlock()
+		tagName := m["tag"]
+		grpctunnel.VerifSetYieldHook(func(tag string) {
+			if tag != tagName {
+				return
+			}
+			w.mu.Lock()
+			g := w.regGate
+			w.mu.Unlock()
+			if g != nil {
+				<-g
+			}
+		})
+	case "releasereg", "release":
 		w.mu.Lock()
 		if w.regGate != nil {
 			close(w.regGate)
